@@ -133,7 +133,7 @@ def snapshot(root, content=True):
         kind = ('dir' if stat.S_ISDIR(m) else 'file' if stat.S_ISREG(m) else 'link' if stat.S_ISLNK(m) else 'fifo' if stat.S_ISFIFO(m)
                 else 'sock' if stat.S_ISSOCK(m) else 'chr' if stat.S_ISCHR(m) else 'blk' if stat.S_ISBLK(m) else 'other')
         d = dict(kind=kind, mode=stat.S_IMODE(m), uid=st.st_uid, gid=st.st_gid, nlink=st.st_nlink, size=st.st_size,
-                 mtime=st.st_mtime_ns, ino=st.st_ino, blocks=st.st_blocks, rdev=st.st_rdev if kind in ('chr', 'blk') else 0)
+                 mtime=st.st_mtime_ns, ctime=st.st_ctime_ns, ino=st.st_ino, blocks=st.st_blocks, rdev=st.st_rdev if kind in ('chr', 'blk') else 0)
         if kind == 'link':
             d['target'] = os.readlink(pathb)
         if kind == 'file':
@@ -200,7 +200,7 @@ class Result:
     pass
 
 
-def run_xcp(root, argv, cwd=None, plan=None, umask=0o022, timeout=120, trace=True, env_extra=None, binary=None, tag='t', nofile=None, cpus=None, ids=None):
+def run_xcp(root, argv, cwd=None, plan=None, umask=0o022, timeout=120, trace=True, env_extra=None, binary=None, tag='t', nofile=None, cpus=None, ids=None, stdout_path=None):
     """Runs xcp with argv (list of str/bytes). With plan/trace, under sup. Returns Result(exit, cls, stderr, trace, final)."""
     r = Result()
     binary = binary or core.XCP
@@ -230,9 +230,11 @@ def run_xcp(root, argv, cwd=None, plan=None, umask=0o022, timeout=120, trace=Tru
         if ids:                                      # (uid, gid, [supplementary groups]): run as an unprivileged user
             os.setgroups(ids[2]); os.setgid(ids[1]); os.setuid(ids[0])
     try:
-        p = subprocess.run(cmd, cwd=cwd, env=env, stdout=subprocess.PIPE, stderr=subprocess.PIPE, timeout=timeout + 30, preexec_fn=pre)
+        out_fh = open(stdout_path, 'wb') if stdout_path else None      # e.g. /dev/full: a standard output that cannot be written
+        p = subprocess.run(cmd, cwd=cwd, env=env, stdout=out_fh or subprocess.PIPE, stderr=subprocess.PIPE, timeout=timeout + 30, preexec_fn=pre)
+        if out_fh: out_fh.close()
         r.stderr = p.stderr.decode('utf-8', 'replace')[-4000:]
-        r.stdout_full = p.stdout.decode('utf-8', 'replace')
+        r.stdout_full = (p.stdout or b'').decode('utf-8', 'replace')
         r.stdout = r.stdout_full[-2000:]
         rc = p.returncode
         hung = False
